@@ -226,3 +226,55 @@ def set_attr(obj, value, *candidates: str, where=None) -> bool:
             setattr(obj, hits[0], value)
             return True
     return False
+
+
+# ---- validators.py ---------------------------------------------------------------------------------------------------
+
+def validation_switch(V):
+    """the module-level object behind `disable_message_validation()` (a ContextVar today): the conventional name, else
+    the only ContextVar of the module; None if there is no such object"""
+    import contextvars
+    sw = getattr(V, "_VALIDATION_ENABLED", None)
+    if sw is not None:
+        return sw
+    cands = [v for v in vars(V).values() if isinstance(v, contextvars.ContextVar)]
+    return cands[0] if len(cands) == 1 else None
+
+
+def validation_in_force(V) -> bool:
+    """is field validation on for the calling context?  Read from the switch when it is found, else measured through the
+    public field API: an out-of-range assignment to a scratch header is refused exactly when validation is on"""
+    sw = validation_switch(V)
+    if sw is not None:
+        try:
+            return bool(sw.get())
+        except Exception:  # noqa: BLE001
+            pass
+    try:
+        import importlib
+        H = importlib.import_module(V.__name__.rsplit(".", 1)[0] + ".header").MessageHeader
+        try:
+            H().src_mod_id = 1 << 40
+        except (ValueError, TypeError):
+            return True
+        return False
+    except Exception:  # noqa: BLE001
+        return True
+
+
+def element_validator(V, d):
+    """the validator object an array descriptor delegates to (whatever the attribute is called)"""
+    return attr(d, "_validator", where=lambda k, v: isinstance(v, V.FieldValidator) and v is not d)
+
+
+# ---- parser.py ---------------------------------------------------------------------------------------------------------
+
+def drop_parser_loggers() -> int:
+    """every `Parser()` registers a logger of its own with the logging module (named after a private instance counter);
+    the drivers that build thousands of parsers forget them again — by what the names start with, not by the counter"""
+    import logging
+    d = logging.Logger.manager.loggerDict
+    names = [k for k in list(d) if k.startswith("pyrtma.parser")]
+    for k in names:
+        d.pop(k, None)
+    return len(names)
